@@ -88,6 +88,10 @@ pub fn run(ctx: &Ctx, rep: &mut Report) {
         if !ctxt.contains("hole__") {
             continue;
         }
+        // text derived from a function's source legitimately shows the expression vs its value
+        if ctxt.contains("=>") && (ctxt.contains("to_string") || ctxt.contains("join(") || ctxt.contains("format(")) {
+            continue;
+        }
         let direct = format!("{}\n{}", prefix, ctxt.replace("hole__", &format!("({})", sub)));
         let bound = format!("{}\nhole__ = {}\n{}", prefix, sub, ctxt);
         let (sd, sb) = match (statements(&direct), statements(&bound)) {
